@@ -228,6 +228,9 @@ def invoke (t : Target) (func : Option Callable) (method params : PyVal) : DispR
       match c.body params with
       | .ret v => (.value v, [.call t method params])
       | .raised cls text te _ depth => (handleCallExc ⟨cls, text, te, decide (depth ≠ 0)⟩, [.call t method params])
+      -- not an instance of `Exception`, hence not a `TypeError`: the last handler is a bare `except:`, it takes
+      -- `SystemExit`, `KeyboardInterrupt`, … like any other method exception (fact `dispatchCallCatchAll`)
+      | .raisedBase cls text depth => (handleCallExc ⟨cls, text, false, decide (depth ≠ 0)⟩, [.call t method params])
     else (handleCallExc ⟨"TypeError", "arguments do not bind", true, false⟩, [])
 
 def unknownMethod (m : String) : DispResult := .fault codeUnknown (msgUnknown m)
@@ -265,6 +268,8 @@ def dispatch (reg : Registry) (m : String) (params : PyVal) : PyM DispResult × 
             let (r, eff') := resolveAndInvoke inst m (.str m) params
             (.ok r, eff ++ eff')
           else (.error { cls := cls, arg := .str text }, eff)
+        -- not an instance of `Exception`, hence not an `AttributeError`: it propagates out of `_dispatch` too
+        | .raisedBase cls text _ => (.error { cls := cls, arg := .str text }, eff)
       | Option.none =>
         let (r, eff) := resolveAndInvoke inst m (.str m) params
         (.ok r, eff)
@@ -293,6 +298,7 @@ def runDispatcher (s : Server) (method params : PyVal) : PyM DispResult × List 
     match d method params with
     | .ret v => (.ok (.value v), [.call .custom method params])
     | .raised cls text _ _ _ => (.error { cls := cls, arg := .str text }, [.call .custom method params])
+    | .raisedBase cls text _ => (.error { cls := cls, arg := .str text }, [.call .custom method params])
   | Option.none =>
     match method with
     | .str m => dispatch s.reg m params
@@ -332,7 +338,8 @@ def singleDispatch (s : Server) (request : PyVal) : PyM (Option PyVal) × List E
       -- never reached after validation; the model does not describe `self.funcs[<non-string>]`
       (raise "Unmodelled" (.str "_dispatch with a non-string method"), [])
     else
-    -- synchronous call inside `try … except Exception`
+    -- synchronous call inside `try … except BaseException` (fix 43f3faa; fact `syncCallCatchAll`): whatever the
+    -- dispatch function or `_dispatch` lets out — `SystemExit`, `KeyboardInterrupt`, … included — is caught here
     match runDispatcher s method params with
     | (.error ex, eff) =>
       match dictGet request "id" .none with
